@@ -9,7 +9,7 @@ from ..report import rule
 from ..model import norm, NotConst, calls_in, stores_in, ShapeError, AnchorMissing, is_self_attr
 from ..paths import enumerate_paths, facts_at, walk_shallow, enclosing_stmt, enclosing_loops
 from ..guards import Evaluator, atom_texts, atoms_of_facts
-from .common import where, path_nodes, body_paths, consistent
+from .common import where, path_nodes, body_paths, consistent, feasible
 
 MOD = "netservice"
 
@@ -304,14 +304,42 @@ def r5(ctx):
     h = nse.methods.get("NetworkNumberIs")
     if h is None:
         raise AnchorMissing("NetworkServiceElement.NetworkNumberIs")
-    nodes_all = list(walk_shallow(h))
-    ups = [x for x in calls_in(h) if norm(x.func).endswith("router_info_cache.update_source_network")]
-    ok = len(ups) == 2
-    for u in ups:
-        blk = getattr(enclosing_stmt(u), "_parent", None)
-        sibs = blk.body if enclosing_stmt(u) in getattr(blk, "body", []) else getattr(blk, "orelse", [])
-        after = sibs[sibs.index(enclosing_stmt(u)) + 1:]
-        ok = ok and any(isinstance(s, ast.Delete) and "adapters[" in norm(s) for s in after) and any(isinstance(s, ast.Assign) and norm(s.targets[0]).endswith(".adapterNet") for s in after) \
-            and any(isinstance(s, ast.Assign) and "adapters[" in norm(s.targets[0]) for s in after)
-        ok = ok and norm(u.args[1]).endswith(".nniNet")
+    # decided on the paths of the handler: wherever the cache is re-keyed, the old adapter entry is deleted, the number is
+    # stored on the adapter and the adapter is entered under the new number, in that order; and the re-keying happens
+    # for an unknown network and for a learned network that differs, not for a matching or a configured one
+    from ..paths import enumerate_paths as _ep
+    a_, n_ = h.args.args[1].arg, h.args.args[2].arg
+    evh = Evaluator(prog, m, nse)
+    hp = [p_ for p_ in _ep(h) if p_.term != "raise"]
+    ok = True
+    n_up = 0
+    for p_ in hp:
+        seq = []
+        for e in p_.events:
+            if e.kind != "stmt":
+                continue
+            nd = e.node
+            if any(norm(x.func).endswith("router_info_cache.update_source_network") for x in calls_in(nd)):
+                u = [x for x in calls_in(nd) if norm(x.func).endswith("router_info_cache.update_source_network")][0]
+                seq.append("rekey" if len(u.args) == 2 and norm(u.args[1]) == "%s.nniNet" % n_ else "rekey?")
+            elif isinstance(nd, ast.Delete) and ".adapters[" in norm(nd):
+                seq.append("del")
+            elif isinstance(nd, ast.Assign) and norm(nd.targets[0]) == "%s.adapterNet" % a_:
+                seq.append("number" if norm(nd.value) == "%s.nniNet" % n_ else "number?")
+            elif isinstance(nd, ast.Assign) and ".adapters[" in norm(nd.targets[0]):
+                seq.append("enter" if norm(nd.value) == a_ else "enter?")
+        if seq:
+            n_up += 1
+            ok = ok and seq == ["rekey", "del", "number", "enter"]
+    ok = ok and n_up >= 1
+    base_env = {"%s.pduDestination.addrType" % n_: prog.try_const(m, ast.parse("Address.localBroadcastAddr", mode="eval").body)}
+    for name_, env_, want in (("unknown", {"%s.adapterNet is None" % a_: True}, True),
+                              ("learned-differs", {"%s.adapterNet is None" % a_: False, "%s.adapterNet == %s.nniNet" % (a_, n_): False, "%s.adapterNetConfigured" % a_: 0}, True),
+                              ("matches", {"%s.adapterNet is None" % a_: False, "%s.adapterNet == %s.nniNet" % (a_, n_): True}, False),
+                              ("configured-differs", {"%s.adapterNet is None" % a_: False, "%s.adapterNet == %s.nniNet" % (a_, n_): False, "%s.adapterNetConfigured" % a_: 1}, False)):
+        e_ = dict(base_env)
+        e_.update(env_)
+        fe = [p_ for p_ in hp if feasible(p_, evh, e_)]
+        does = [any(e.kind == "stmt" and any(norm(x.func).endswith("update_source_network") for x in calls_in(e.node)) for e in p_.events) for p_ in fe]
+        ok = ok and bool(fe) and (all(does) if want else not any(does))
     ctx.check("NSE.NetworkNumberIs:renumbers", ok, where(m, h), "learning the network number must re-key the cache and the adapter map and store the number on the adapter")
